@@ -105,10 +105,8 @@ package graph
 // ---------------------------------------------------------------------------
 // bands: first and last node need a non-empty band (C01)
 //@ func Layer.Head
-//@   requires layer != nil && len(layer.Nodes) > 0
-//@   ensures result == layer.Nodes[0]
-//@   modifies nothing
+//@   requires[|C01] layer != nil && len(layer.Nodes) > 0
+//@   ensures[|C01] result == layer.Nodes[0]
 //@ func Layer.Tail
-//@   requires layer != nil && len(layer.Nodes) > 0
-//@   ensures result == layer.Nodes[len(layer.Nodes)-1]
-//@   modifies nothing
+//@   requires[|C01] layer != nil && len(layer.Nodes) > 0
+//@   ensures[|C01] result == layer.Nodes[len(layer.Nodes)-1]
